@@ -30,6 +30,7 @@ pub fn run(ctx: &mut Ctx, suite: &str) {
         "c20c" => c05::run_c20c(ctx),
         "c03b" => c05::run_c03b(ctx),
         "c08c" => c05::run_c08c(ctx),
+        "c08d" => c05::run_c08d(ctx),
         "c06" => c06::run(ctx),
         "c08" => c06::run_c08(ctx),
         "c07" => c07::run(ctx),
